@@ -59,12 +59,18 @@ def run_unit(unit):
     return out.result()
 
 
-def build_all(cases, sc, tag):
+def opt_configs(tier):
+    if tier == "c14:quick":
+        return [c for c in OPT_CONFIGS if c[0] in ("opt-little", "opt-both-DBP_BIG_ENDIAN")]
+    return OPT_CONFIGS
+
+
+def build_all(cases, sc, tag, tier="quick"):
     std = cback.CBatch(cases, sc.sub("std" + tag))
     std.build("std-O2")
     opts = {}
     batches = {}
-    for name, endian, extra in OPT_CONFIGS:
+    for name, endian, extra in opt_configs(tier):
         key = endian
         if key not in batches:
             batches[key] = cback.CBatch(cases, sc.sub("opt_%s%s" % (endian, tag)), optimize=True, endian=endian)
@@ -76,7 +82,7 @@ def build_all(cases, sc, tag):
 
 def run_batch(pid, tier, cases, sc, out, tag="0"):
     try:
-        std, opts = build_all(cases, sc, tag)
+        std, opts = build_all(cases, sc, tag, tier)
     except Exception as e:
         if len(cases) > 1:
             for k, c in enumerate(cases):
